@@ -166,6 +166,7 @@ WS_LENS = [1, 0xfc, 0xfd, 300]          # varint boundary 0xfc / 0xfd
 TXS = [TX_SIGNED_1IN, TX_2IN, TX_UNSIGNED_1IN,
        mk_tx([(pat(32, 9), 1, b"\x00" + b"\x4c\x03abc" + push(REDEEM), 5)], [])]   # PUSHDATA1 in a non-final op, no outputs
 PROOFS = [PROOF, [pat(1, 1)], [pat(255, 2), pat(2, 3), pat(31, 4)]]
+PROOF_MAX = [bytes([i + 1]) for i in range(255)]      # the largest node count the 1-byte counter can announce
 CHUNKS = [255, 1, 3, 80]
 SELECT = [(i % 6, i % 4, i % 3) for i in range(12)]
 LAYOUT_PARTS = [(m, t, c) for m in ("legacy", "segwit") for t in range(len(TXS)) for c in (0, 2, 3)] + \
@@ -348,3 +349,63 @@ def unauthorized(sig: bytes) -> bool:
 
 
 SIGMAX = 12 if THOROUGH else 9
+
+
+@obligation(tier="quick", parts=2, timeout=300, part_names=["legacy", "segwit"],
+            bounds="a receipt merkle proof of 255 one-byte nodes (the maximum node count) and one of a single 255-byte node; input index "
+                   "symbolic 0..2^32-1; chunk requests 255",
+            examples=[(0, dict(inp=3, big=True)), (1, dict(inp=0, big=False))])
+def layout_max_proof(inp: int, big: bool) -> bool:
+    """
+    pre: 0 <= inp <= 0xffffffff
+    post: _
+    """
+    mode = ["legacy", "segwit"][part()]
+    proof = PROOF_MAX if big else [pat(255, 9)]
+    req = {"command": "sign", "version": 5, "keyId": KEY_PATHS[0],
+           "auth": {"receipt": RECEIPT.hex(), "receipt_merkle_proof": [n.hex() for n in proof]},
+           "message": {"tx": TXS[0].hex(), "input": inp, "sighashComputationMode": mode}}
+    if mode == "segwit":
+        req["message"]["witnessScript"] = pat(30, 1).hex()
+        req["message"]["outpointValue"] = 77
+    d = SimDevice()
+    proto, dongle, world = make_stack(d, bytes_model=True)
+    out = handle(proto, req)
+    if out[0] != "reply" or out[1].get("errorcode") != 0 or world.violations:
+        return False
+    v = d.parsed_sign()
+    return v.get("proof_count") == len(proof) and v["nodes"] == [list(n) for n in proof] \
+        and v["input_bytes"] == list(inp.to_bytes(4, "little")) and v["receipt"] == list(RECEIPT)
+
+
+@obligation(tier="thorough", parts=2, timeout=900, thorough_timeout=1500, part_names=["legacy", "segwit"],
+            bounds="the whole authorized exchange with the device's FIRST chunk request of every part symbolic over 1..255 (then 255): "
+                   "ties chunking and layout together end to end",
+            examples=[(0, dict(r=1)), (1, dict(r=255)), (0, dict(r=100))])
+def layout_symbolic_request(r: int) -> bool:
+    """
+    pre: 1 <= r <= 255
+    post: _
+    """
+    from sim.base import _realize
+    r = _realize(r)
+    mode = ["legacy", "segwit"][part()]
+    req = valid_request("sign", 0 if mode == "legacy" else 2)
+    key_path = req["keyId"]
+
+    class Dev(SimDevice):
+        """asks for r bytes as the first request of every part, then 255"""
+        def handle_sign(self, data):
+            first = self.sign is None or self.sign.get("expect") != data[0]
+            self.chunk = r if (data[0] == 0x01 or first) else 255
+            return SimDevice.handle_sign(self, data)
+    d = Dev()
+    d.chunk = r
+    proto, dongle, world = make_stack(d, bytes_model=True)
+    out = handle(proto, req)
+    if out[0] != "reply" or out[1].get("errorcode") != 0 or world.violations:
+        return False
+    v = d.parsed_sign()
+    utx = list(TX_UNSIGNED_1IN)
+    return v["tx"] == utx and v["receipt"] == list(RECEIPT) and v["nodes"] == [list(n) for n in PROOF] \
+        and v["path"] == list(path_bytes(key_path))
